@@ -115,3 +115,21 @@ pub proof fn lemma_pow2_tz(b: u64)
 pub fn __vec_is_one(v: &Vec<u64>) -> (r: bool)
     ensures r == (v@ =~= seq![1u64])
 { unimplemented!() }
+
+//@ assume axiom_vec_u64_len : Rust allocation limit (std: "Vec never allocates more than isize::MAX bytes"): a Vec<u64> holds at most isize::MAX / 8 elements
+#[verifier::external_body]
+pub proof fn axiom_vec_u64_len(v: &Vec<u64>)
+    ensures v@.len() <= 0x0fff_ffff_ffff_ffff
+{ }
+
+//@ assume std::i32/i64/i128::wrapping_neg : std documentation: two's-complement negation; MIN.wrapping_neg() == MIN
+pub assume_specification[ i32::wrapping_neg ](x: i32) -> (r: i32)
+    ensures r as int == (if x == i32::MIN { x as int } else { -(x as int) });
+pub assume_specification[ i64::wrapping_neg ](x: i64) -> (r: i64)
+    ensures r as int == (if x == i64::MIN { x as int } else { -(x as int) });
+pub assume_specification[ i128::wrapping_neg ](x: i128) -> (r: i128)
+    ensures r as int == (if x == i128::MIN { x as int } else { -(x as int) });
+
+//@ assume std::mem::replace : std documentation: moves `src` into `dest`, returning the previous `dest` value
+pub assume_specification<T>[ core::mem::replace::<T> ](dest: &mut T, src: T) -> (r: T)
+    ensures *final(dest) == src, r == *old(dest);
